@@ -11,6 +11,9 @@ use compute::linalg::{dot, invert_matrix, matmul, solve};
 use compute::predict::{ExponentialFamily as Fam, GLM};
 use compute::statistics::mean;
 
+#[path = "c06_pinned.rs"]
+mod pinned;
+
 const FAMS: [(Fam, &str); 6] = [
     (Fam::Gaussian, "Gaussian"), (Fam::Bernoulli, "Bernoulli"), (Fam::QuasiPoisson, "QuasiPoisson"),
     (Fam::Poisson, "Poisson"), (Fam::Gamma, "Gamma"), (Fam::Exponential, "Exponential"),
@@ -650,6 +653,14 @@ pub fn oracle(tier: &str, seed: u64) -> (u64, Vec<Finding>) {
             let dk = q.below(4) as usize; let pr = problem_x(&mut q, 0, n, p, dk, c, alphas[(k / 2 + rep) % 4], tol_of(k + rep));
             tried += 1; k += 1; examine(&pr, k, &mut q, &mut rx, &mut out, &mut st, "H", true);
         } }
+    }
+    // ---- the data set of the recorded finding `status:ok-while-coefficients-still-moving`, evaluated on every run whatever the seed (so the
+    //      finding listed in known_findings.txt is reported by every run and a repair of the stopping rule is noticed at once)
+    {
+        let pr = Prob { fam: 5, n: 20, p: 6, x: pinned::X.to_vec(), y: pinned::Y.to_vec(), w: Some(pinned::W.to_vec()), wkind: 2, off: Some(pinned::OFF.to_vec()),
+                        alpha: 0.0, tol: 1e-10, beta: vec![0.0; 6], dkind: 1 };
+        let (mut q1, mut q2) = (Rng::new(0x0C06_F1D1), Rng::new(0x0C06_F1D2));
+        tried += 1; examine(&pr, 0, &mut q1, &mut q2, &mut out, &mut st, "pinned", true);
     }
     if std::env::var("HARNESS_C06_STATS").is_ok() { for (k, v) in &st.c { eprintln!("{:>8}  {}", v, k); } }
     (tried, out)
